@@ -14,7 +14,14 @@ ENC = {e: i + 1 for i, e in enumerate(UNIVERSE)}
 def _project(ds, usize):
     enc = ENC
     it = [enc.get(e, 0) for e in list(ds)]
-    ev = {"iter": it, "len": len(ds), "contains": [i + 1 for i in range(usize) if UNIVERSE[i] in ds]}
+    # two iterations of the same object that overlap in time (as in `for a in ds: for b in ds:`): each is a full iteration
+    outer, inner_full = [], True
+    for n_, a in enumerate(ds):
+        outer.append(enc.get(a, 0))
+        if n_ < 3 or len(it) <= 40:
+            inner_full = inner_full and [enc.get(b, 0) for b in ds] == it
+    ev = {"iter": it, "len": len(ds), "contains": [i + 1 for i in range(usize) if UNIVERSE[i] in ds],
+          "iter_outer": outer, "inner_full": bool(inner_full)}
     pe, ph = getattr(ds, "_edges", None), getattr(ds, "_edge_hashmap", None)
     if isinstance(pe, list) and isinstance(ph, dict):
         ev["priv"] = True
